@@ -596,6 +596,18 @@ pub fn generate(prop: &str, tier: Tier, rng: &mut Rng, seed: u64, run: u64) -> P
             gen_node(prop, kind, 1, tier, rng, seed, run)
         }
         "C11" => gen_node(prop, "cpid", 1, tier, rng, seed, run),
+        // two directed plans per batch: the first sample of a moving average lies within one window of the first
+        // representable instant (recorded defect D7: `now - window` is computed)
+        "C12" if run == 10 || run == 11 => {
+            let kind = if run == 10 { "ma_f" } else { "ma_q" };
+            let mut plan = Plan::new("node", prop, seed, run);
+            header_for(&mut plan, kind, rng);
+            plan.set("window", 1_000_000_000);
+            plan.set("hold_inputs", 0);
+            plan.push("S", &[i64::MIN + 5 + rng.range(0, 1000), fb(1.5)]);
+            plan.push("U", &[]);
+            plan
+        }
         "C12" => {
             let kinds = ["ewma_f", "ewma_q", "ma_f", "ma_q"];
             let kind = kinds[(run % 4) as usize];
